@@ -3,6 +3,6 @@
 cd /verif
 for p in "$@"; do
   s=$(date +%s)
-  timeout 3600 ./check $p --tier thorough --jobs 12 > scratch/thorough_$p.log 2>&1
+  VERIF_STRICT=1 timeout 3600 ./check $p --tier thorough --jobs 12 > scratch/thorough_$p.log 2>&1
   echo "$p exit=$? wall=$(( $(date +%s) - s ))s $(tail -n 1 scratch/thorough_$p.log | cut -c1-160)" >> scratch/thorough_summary.txt
 done
